@@ -261,10 +261,15 @@ func c11Us(level int) []*big.Int {
 	return out
 }
 
+// c11Seam is set when the sweep runs as a seam part of C08 (see c12Seam).
+var c11Seam bool
+
 // C11 checks the simplified SWU map and the 3-isogeny.
 func C11(r *ev.Report) {
+	thorough := ev.Thorough() && !c11Seam
+
 	level := 0
-	if ev.Thorough() {
+	if thorough {
 		level = 1
 	}
 
@@ -288,7 +293,7 @@ func C11(r *ev.Report) {
 	})
 
 	nx := 2048
-	if ev.Thorough() {
+	if thorough {
 		nx = 1 << 16
 	}
 	r.ParFor(nx, func(_, i int) {
